@@ -121,7 +121,12 @@ def run(ctx):
                               % (cfg, a, t, want.get((a, b))), {'kind': 'code->spec', 'stream': []})
                 break
     ctx.extra['pipeline_texts_under_mixed_filters'] = nmix
-    execs = validate_streams(ctx, cases, 'full', 'c08val')
+    # C08 pins: exactly one lookup / string trace per text (none for continuation records), its text and vnode id, the path
+    # arguments of the enclosing syscall.  The event LIST of a trace and the trace count of other records are C04's, the
+    # name tables are by-products
+    FRAG = ('LKP', 'GSTR', 'TNAME', 'TNAMEP')
+    own = lambda cl, cls: cl in ('raised', 'fields', 'shape') or (cl in ('missing-trace', 'spurious-trace') and cls in FRAG)
+    execs = validate_streams(ctx, cases, 'full', 'c08val', own=own)
     ctx.sample({'case': cases[5][0], 'events': [a.abs for a in cases[5][2]][:3]})
     ctx.extra['code_to_spec'] = {'cases': len(cases), 'path_taking_decoders': len(names), 'text_lengths': len(lens),
                                  'lookups_per_window': nl_choices}
